@@ -296,7 +296,7 @@ def _spec_hash(spec: dict) -> int:
 WARM_STATS = {"strided_layout": 0, "queried_before_use": 0, "other_input_dtypes": 0,
               "readonly_columns": 0, "one_array_as_two_columns": 0,
               "aborted_operations_before_use": 0, "made_by_another_library_function": 0,
-              "derived_by_the_library_from_a_used_tree": 0}
+              "derived_by_the_library_from_a_used_tree": 0, "branch_tree_instances": 0}
 
 
 def warm(tree, h: int = 0xFFFF) -> None:
@@ -417,6 +417,27 @@ def _via_library(tree, route: int):
         return tree
     WARM_STATS["made_by_another_library_function"] += 1
     return t2
+
+
+def as_branch_tree(tree):
+    """The library's reduced form of ``tree`` (a BranchTree: root, furcations and tips joined by
+    straight edges).  It *is* a Tree -- every function documented for trees applies to its own
+    node table -- and carries extra state (the remembered original branches).  Returns
+    (branch tree, spec of its own columns) or (None, None)."""
+    import warnings
+
+    try:
+        with warnings.catch_warnings():
+            warnings.simplefilter("ignore")
+            from swcgeom.core import BranchTree
+
+            bt = BranchTree.from_tree(tree)
+    except Exception:
+        return None, None
+    if len(bt) < 2 or not np.array_equal(bt.ndata["id"], np.arange(len(bt))):
+        return None, None
+    WARM_STATS["branch_tree_instances"] += 1
+    return bt, {k: np.array(v, copy=True) for k, v in bt.ndata.items() if k != "id"}
 
 
 def derive(tree, spec: dict, h: int, *, float64_ok: bool = False):
